@@ -2,6 +2,11 @@ import EdpVerif.Lemmas.CmpSwap
 import EdpVerif.Lemmas.OrderTrans
 import EdpVerif.Lemmas.SortedInsert
 import EdpVerif.Lemmas.EqCmp
+import EdpVerif.Lemmas.CmpArmsEq
+import EdpVerif.Lemmas.CmpArmsRefine
+import EdpVerif.Lemmas.CmpTables
+import EdpVerif.Lemmas.SortMap
+import EdpVerif.Lemmas.EqvEquiv
 /-
 C11 — term comparison is a lawful total preorder consistent with equality and hashing.
 `Term.cmp` is the model of `impl Ord for OwnedTerm` / `BorrowedTerm` (one Lean type for both; that they agree
@@ -164,5 +169,162 @@ theorem C11_sorted_build (l : List (Term × Term)) (hl : ∀ p ∈ l, WFo p.1) :
         obtain ⟨q', hq', e2⟩ := s2 q hq
         exact ⟨q', hq', by rw [e2]; exact e1⟩
       · exact s3 p hp
+
+/-! ### the zero-copy type orders every pair exactly as the owned type does
+
+`cmpO` / `cmpB` (Impl/CmpArms.lean) are two separately written arm-by-arm models: of `impl Ord for OwnedTerm` with the helpers
+of term.rs and of `impl Ord for BorrowedTerm` with the copies in borrowed.rs (its own type-rank table, cons-cell walk,
+`compare_list_terms`, bit-string parts; no `discriminant` fast path; free variables of funs compared as owned terms). Each is
+tied to its own implementation on every pair of the universe (`c11arms`). -/
+
+/-- for every pair of terms and every amount of fuel the zero-copy comparison returns what the owned comparison returns -/
+theorem C11_borrowed_eq_owned (f : Nat) (a b : Term) : Term.cmpB f a b = Term.cmpO f a b := cmpB_eq_cmpO f a b
+
+/-- with the fuel the driver uses -/
+theorem C11_borrowed_eq_owned_run (a b : Term) : Term.cmpBorrowed a b = Term.cmpOwned a b := cmpBorrowed_eq_cmpOwned a b
+
+/-- the arm-by-arm model of `impl Ord for OwnedTerm` (fast path, rank comparison, arms in source order, lazily walked
+cons cells, loops) computes `Term.cmp`, the function the laws above are proved about — for every pair of terms -/
+theorem C11_owned_arms_refine (a b : Term) : Term.cmpOwned a b = Term.cmp a b := cmpOwned_eq_cmp a b
+
+/-- and so does the arm-by-arm model of `impl Ord for BorrowedTerm` -/
+theorem C11_borrowed_arms_refine (a b : Term) : Term.cmpBorrowed a b = Term.cmp a b := by
+  rw [cmpBorrowed_eq_cmpOwned, cmpOwned_eq_cmp]
+
+/-- hence the zero-copy comparison is itself a lawful total preorder (reflexive, antisymmetric up to Equal, transitive on
+terms whose big integers have minimal digits) -/
+theorem C11_borrowed_total_preorder :
+    (∀ a : Term, Term.cmpBorrowed a a = .eq) ∧
+    (∀ a b : Term, Term.cmpBorrowed a b = (Term.cmpBorrowed b a).swap) ∧
+    (∀ a b c : Term, WFo a → WFo b → WFo c → Term.cmpBorrowed a b ≠ .gt → Term.cmpBorrowed b c ≠ .gt →
+      Term.cmpBorrowed a c ≠ .gt) := by
+  simp only [C11_borrowed_arms_refine]
+  exact ⟨C11_refl, C11_swap, fun a b c ha hb hc => C11_trans a b c ha hb hc⟩
+
+/-- non-vacuity: the two models do compute (improper list whose tail is a list against a proper list; the fast path;
+an improper list without elements is its tail) -/
+example : Term.cmpOwned (.ilist [.int 1] (.list [.int 2])) (.list [.int 1, .int 2]) = .eq ∧
+    Term.cmpBorrowed (.ilist [.int 1] (.int 2)) (.list [.int 1, .int 2]) = .lt ∧
+    Term.cmpOwned (.atom [97]) (.atom [98]) = .lt ∧
+    Term.cmpBorrowed (.ilist [] (.int 5)) (.atom [97]) = .lt ∧ Term.cmpOwned (.ilist [] (.int 5)) (.int 5) = .eq := by
+  decide
+
+/-- the type-rank functions of both models are the tables regenerated from `term_type_order` (term.rs) and
+`borrowed_type_order` (borrowed.rs), for every constructor -/
+theorem C11_rank_tables_are_the_source (t : Term) :
+    Gen.C11_OWNED_RANKS.lookup (variantName t) = some (Term.rankO t) ∧
+    Gen.C11_BORROWED_RANKS.lookup (variantName t) = some (Term.rankB t) ∧
+    Term.rank t = Term.rankO t := by
+  cases t <;> simp only [variantName, Term.rankO, Term.rankB, Term.rank] <;> decide
+
+/-- both regenerated rank tables are Erlang's type order as the property states it, and both `LIST_TYPE_ORDER` constants
+are the rank of lists -/
+theorem C11_rank_tables_are_erlangs :
+    Gen.C11_OWNED_RANKS = erlangRanks ∧ Gen.C11_BORROWED_RANKS = erlangRanks ∧
+    Gen.C11_LIST_TYPE_ORDER_OWNED = Term.listTypeOrderO ∧ Gen.C11_LIST_TYPE_ORDER_BORROWED = Term.listTypeOrderB ∧
+    Gen.C11_BORROWED_VARIANTS = Gen.C11_OWNED_VARIANTS ∧ Gen.C11_OWNED_VARIANTS.length = 17 := by
+  refine ⟨rfl, rfl, rfl, rfl, rfl, rfl⟩
+
+/-- the arm tables of both `Ord` impls, regenerated from the source (variant pair → what the arm evaluates, type names
+removed), are the arms the models transcribe, and they are the same table for both types; the zero-copy type has no fast
+path; the helpers that exist once per type (`ListCells::new/next`, `compare_list_terms`, `without_empty_cells`,
+`bitstring_parts`, `compare_term_lists`) are the same text up to the type names -/
+theorem C11_arm_tables_are_the_source :
+    Gen.C11_OWNED_ARMS = modelArms ∧ Gen.C11_BORROWED_ARMS = modelArms ∧
+    Gen.C11_OWNED_CATCHALL = modelCatchAll ∧ Gen.C11_BORROWED_CATCHALL = modelCatchAll ∧
+    Gen.C11_OWNED_FAST_ARMS = modelFastArms ∧ Gen.C11_BORROWED_FAST_ARMS = [] ∧
+    Gen.C11_DUPLICATED_HELPERS_SAME.all (·.2) = true ∧ Gen.C11_DUPLICATED_HELPERS_SAME.length = 6 := by
+  refine ⟨rfl, rfl, rfl, rfl, rfl, rfl, by decide, by decide⟩
+
+set_option maxRecDepth 8000 in
+/-- all 17 × 17 variant pairs: a pair of equal rank that no arm names reaches the catch-all only when both sides are
+list-like (rank 8, `compare_list_terms`) or both are bit-strings (rank 9, `bitstring_parts`) — no other pair can fall into a
+catch-all; identically for both types; and every fast-path arm returns what the main arm of the same pair evaluates -/
+theorem C11_arm_tables_cover_all_pairs :
+    (∀ a ∈ Gen.C11_OWNED_VARIANTS, ∀ b ∈ Gen.C11_OWNED_VARIANTS,
+      rankOfName Gen.C11_OWNED_RANKS a = rankOfName Gen.C11_OWNED_RANKS b → armOf Gen.C11_OWNED_ARMS a b = none →
+      (rankOfName Gen.C11_OWNED_RANKS a = 8 ∨ rankOfName Gen.C11_OWNED_RANKS a = 9)) ∧
+    (∀ a ∈ Gen.C11_OWNED_VARIANTS, ∀ b ∈ Gen.C11_OWNED_VARIANTS,
+      armOf Gen.C11_BORROWED_ARMS a b = armOf Gen.C11_OWNED_ARMS a b ∧
+      rankOfName Gen.C11_BORROWED_RANKS a = rankOfName Gen.C11_OWNED_RANKS a) ∧
+    (∀ e ∈ Gen.C11_OWNED_FAST_ARMS, armOf Gen.C11_OWNED_ARMS e.1 e.2.1 = some e.2.2) := by
+  refine ⟨by decide, fun a _ b _ => ⟨rfl, rfl⟩, by decide⟩
+
+/-! ### `==` and `Hash`: derived or hand-written, and over which fields -/
+
+/-- `PartialEq` of both term types is derived (all fields of every variant), `Hash for OwnedTerm` is hand-written and hashes,
+per variant, exactly what `Term.hashBytes` writes; the identifier structs compare, hash and order the same fields, namely all
+but `local_ext_bytes`; an internal fun hashes all its fields; `Atom`, `BigInt`, `ExternalFun` derive both `PartialEq` and `Hash` -/
+theorem C11_eq_hash_fields_are_the_source :
+    "PartialEq" ∈ Gen.C11_OWNED_DERIVES ∧ "PartialEq" ∈ Gen.C11_BORROWED_DERIVES ∧ "Hash" ∉ Gen.C11_OWNED_DERIVES ∧
+    Gen.C11_HASH_FIELDS = modelHashFields ∧
+    (∀ v ∈ Gen.C11_OWNED_VARIANTS, (Gen.C11_HASH_FIELDS.lookup v).isSome) ∧
+    Gen.C11_ID_HASH_FIELDS = Gen.C11_ID_EQ_FIELDS ∧ Gen.C11_ID_CMP_FIELDS = Gen.C11_ID_EQ_FIELDS ∧
+    (∀ e ∈ Gen.C11_ID_EQ_FIELDS, (Gen.C11_STRUCT_FIELDS.lookup e.1).map (·.filter (· != "local_ext_bytes")) = some e.2) ∧
+    (Gen.C11_HASH_FIELDS.lookup "InternalFun").map (·.map (fun s => if s == "each:var" then "free_vars" else (s.drop 2).toString)) =
+      Gen.C11_STRUCT_FIELDS.lookup "InternalFun" ∧
+    (∀ s ∈ ["Atom", "BigInt", "ExternalFun"], ∀ d ∈ ["PartialEq", "Hash"], ∃ ds, Gen.C11_STRUCT_DERIVES.lookup s = some ds ∧ d ∈ ds) := by
+  refine ⟨by decide, by decide, by decide, rfl, by decide, rfl, rfl, by decide, by decide, by decide⟩
+
+/-- `Hash` starts with the discriminant: the index of the variant in the regenerated declaration order, as 8 bytes -/
+theorem C11_hash_discriminant (t : Term) :
+    Gen.C11_OWNED_VARIANTS.idxOf (variantName t) = discr t ∧ (Term.hashBytes t).take 8 = hU64 (discr t) := by
+  constructor
+  · cases t <;> simp only [variantName, discr] <;> decide
+  · cases t <;> simp [Term.hashBytes, hU64, leB, discr]
+
+/-! ### consequences: sorting, ordered maps -/
+
+/-- sorting (core Lean's stable merge sort run with the model order) neither loses nor duplicates an element (the result is
+a permutation of the input) and misplaces none (every element is `<=` every later one), for all lists of terms whose big
+integers have minimal digits -/
+theorem C11_sort_sound (l : List WTerm) :
+    (l.mergeSort leT).Perm l ∧ (l.mergeSort leT).Pairwise (fun a b => Term.cmp a.1 b.1 ≠ .gt) := by
+  refine ⟨List.mergeSort_perm l leT, ?_⟩
+  have h := List.pairwise_mergeSort (le := leT) leT_trans leT_total l
+  exact List.Pairwise.imp (fun h => by simpa [leT] using h) h
+
+example : ∃ l : List WTerm, l.length = 3 := ⟨[⟨.atom [97], rfl⟩, ⟨.tuple [.big true [0, 1]], rfl⟩, ⟨.float 0x7FF8000000000000, rfl⟩], rfl⟩
+
+/-- the ordered map: after one insertion a lookup of any key Equal to the inserted key returns the new value, every other
+lookup returns what it returned before -/
+theorem C11_map_insert_lookup (m : List (Term × Term)) (k v k' : Term) (hk : WFo k) (hk' : WFo k') (hm : ∀ p ∈ m, WFo p.1) :
+    mapGet (mapInsert m k v) k' = if Term.cmp k' k = .eq then some v else mapGet m k' :=
+  mapGet_mapInsert m k v k' hk hk' hm
+
+/-- after any sequence of insertions a lookup returns the LAST value written under a key that compares Equal to the
+looked-up key (nothing if none was): no entry is lost, none shadowed by a stale one -/
+theorem C11_map_lookup_is_last_write (l : List (Term × Term)) (k' : Term) (hl : ∀ p ∈ l, WFo p.1) (hk' : WFo k') :
+    mapGet (l.foldl (fun m kv => mapInsert m kv.1 kv.2) []) k' =
+      (l.reverse.find? (fun p => Term.cmp k' p.1 == .eq)).map (·.2) := mapGet_build l k' hl hk'
+
+example : (∀ p ∈ [((.int 1 : Term), (.atom [97] : Term)), (.float 0x3FF0000000000000, .atom [98])], WFo p.1 = true) ∧
+    WFo (.int 1) = true := by simp [WFo]
+
+/-- removing entries from an ordered map keeps the keys strictly ascending -/
+theorem C11_sorted_remove (m m' : List (Term × Term)) (h : m'.Sublist m) (hs : keysSorted m) : keysSorted m' :=
+  keysSorted_sublist h hs
+
+/-! ### hashed containers -/
+
+/-- `==` on terms is an equivalence relation: symmetric and transitive on all terms, reflexive on every term without a NaN
+(a NaN is `!=` itself, `C11_cmp_eq_not_eqv`; the property speaks of finite floats) -/
+theorem C11_eq_is_equivalence :
+    (∀ a : Term, noNaN a = true → Term.eqv a a = true) ∧
+    (∀ a b : Term, Term.eqv a b = true → Term.eqv b a = true) ∧
+    (∀ a b c : Term, Term.eqv a b = true → Term.eqv b c = true → Term.eqv a c = true) :=
+  ⟨eqv_refl, eqv_symm, eqv_trans⟩
+
+example : noNaN (.tuple [.float 0x7FF0000000000000, .float 0x8000000000000000, .map [(.int 1, .list [.float 1])]]) = true := by
+  simp [noNaN, noNaNL, noNaNKV, f64, F64.isNaN]
+
+/-- a container that finds entries by hash first and `==` second (`HashMap`), for EVERY hash function of the byte stream
+that `Hash::hash` writes: after an insertion every key `==` to the inserted one reads the new value (the hash comparison
+never hides it, by `C11_eq_hash`), every other key reads what it read before; and a key without NaN finds itself -/
+theorem C11_hashmap_insert_lookup (hf : Bytes → Nat) (m : List (Term × Term)) (k v k' : Term) :
+    hmGet hf (hmInsert hf m k v) k' = (if Term.eqv k k' = true then some v else hmGet hf m k') ∧
+    (noNaN k = true → hmGet hf (hmInsert hf m k v) k = some v) := by
+  refine ⟨hmGet_hmInsert hf m k v k', fun hk => ?_⟩
+  rw [hmGet_hmInsert, if_pos (eqv_refl k hk)]
 
 end Edp.Props.C11
